@@ -39,6 +39,13 @@ CHECKS["C19"] = dict(
   note="Host comparison is exact-string; alphabet has no whitespace/non-ASCII; TLS off in the CLI phase; two cases the documentation leaves open (':' in an entry token, duplicated host) accept either behaviour.",
   design="3/C19")
 
+CHECKS["C02"] = dict(
+  level="exploration", engine="joborder",
+  technique="exhaustive enumeration of owned nondeterminism: all job orders of each thread.Parallelize call, walk-order permutations, map-iteration seeds via a runtime overlay, parallelism grid, listing orders; byte equality with the baseline execution",
+  text="Eight output functions (serialized image, lint text, breaking text, format+diff, file listing, dependency graph + digests + image with four pinned commits of one remote module, module digests, type-filtered images) are re-executed at every point of each nondeterminism dimension the harness owns: every execution order of the jobs of every thread.Parallelize call seen (all n! up to 4 jobs, else reverse/rotations/adjacent swaps; also at parallelism 2 where the check server chunks files), reverse/rotation/swap/24-permutation/single-call perturbations of every storage Walk, Go map iteration seeds 0..63 (settable through a build-time overlay of runtime/map.go), the GOMAXPROCS x thread-parallelism grid, and permutations of listed modules, rule ids and dependency pins. Every output must be byte-identical to the baseline.",
+  note="Scheduling inside protocompile and inside the in-process bufplugin check server is not controlled; the map-seed sweep rotates all maps alike; multiClient.Check has a single delegate in these scenarios (no second plugin).",
+  design="3/C02")
+
 NOT_YET = {}
 
 def main():
@@ -72,6 +79,7 @@ def main():
         },
         "engines": [
             {"name": "sched", "path": "internal/sched", "serves_properties": ["C02", "C09", "C15"], "kind_free_text": "cooperative controlled scheduler over verifhook points + deviation-bounded DFS over schedules and environment choices"},
+            {"name": "joborder", "path": "internal/joborder, overlay/", "serves_properties": ["C02"], "kind_free_text": "enumerates the execution orders of thread.Parallelize jobs through the verifhook seam; runtime map-seed overlay"},
             {"name": "fault", "path": "internal/wrap, internal/hook", "serves_properties": ["C09", "C15"], "kind_free_text": "fault/kill-point enumeration through wrapper buckets and storageos hook points"},
             {"name": "statex", "path": "checks/c14", "serves_properties": ["C14"], "kind_free_text": "explicit-state BFS over a Go reference model, each transition replayed on a fresh real instance"},
             {"name": "enum", "path": "internal/enum", "serves_properties": ["C13"], "kind_free_text": "bounded-exhaustive generators (odometers, subsets, permutations, digraphs)"},
